@@ -258,7 +258,7 @@ fn write_leb(mut v: u64, out: &mut Vec<u8>) {
     }
 }
 
-/// insert `n` nops before the final `end` of code entry `k`
+/// insert `n` pairs `i32.const 0; drop` before the final `end` of code entry `k`
 fn pad_code_entry(bytes: &[u8], k: usize, n: usize) -> Option<Vec<u8>> {
     let mut out = bytes[..8].to_vec();
     let mut at = 8;
@@ -279,9 +279,13 @@ fn pad_code_entry(bytes: &[u8], k: usize, n: usize) -> Option<Vec<u8>> {
                 let body = payload.get(q..q + len)?;
                 q += len;
                 if i == k && body.last() == Some(&0x0b) {
-                    write_leb((len + n) as u64, &mut np);
+                    // n times `i32.const 0; drop` (instructions walrus keeps,
+                    // unlike nops): 3 bytes and 2 instructions each
+                    write_leb((len + 3 * n) as u64, &mut np);
                     np.extend_from_slice(&body[..len - 1]);
-                    np.extend(std::iter::repeat(0x01).take(n));
+                    for _ in 0..n {
+                        np.extend_from_slice(&[0x41, 0x00, 0x1a]);
+                    }
                     np.push(0x0b);
                 } else {
                     write_leb(len as u64, &mut np);
@@ -333,8 +337,9 @@ fn materialise(input: &Input) -> Option<(Vec<u8>, String, usize)> {
                     tag.push_str("+dwarf");
                 }
             }
-            // one case in eight gets a body of more than 32 KiB (a run of
-            // nops before the final end of a late function)
+            // one case in eight gets a body of ~100 KiB with more than 2^16
+            // instructions (const/drop pairs before the final end of a late
+            // function)
             if n_mut == 0 && tag.is_empty() && nf >= 2 && bytes.get(2).map(|x| x % 8 == 0).unwrap_or(false) {
                 let k = nf - 1 - (bytes.get(3).copied().unwrap_or(0) as usize % nf.min(3));
                 if let Some(p) = pad_code_entry(&b, k, 33_000) {
@@ -350,6 +355,26 @@ fn materialise(input: &Input) -> Option<(Vec<u8>, String, usize)> {
         }
         _ => None,
     }
+}
+
+/// `c09-child`: the parallel build's answer for one input, in its own process
+#[cfg(feature = "parallel")]
+pub fn child_main(path: &str, threads: usize, mode: u8) -> i32 {
+    let bytes = match std::fs::read(path) {
+        Ok(b) => b,
+        Err(_) => return 2,
+    };
+    match par::run_once(&bytes, threads, 1, mode) {
+        Ok(Some(b)) => println!("ok {} {}", fnv(&b), b.len()),
+        Ok(None) => println!("rejected"),
+        Err(f) => println!("panic {}", f.signature.replace(' ', "_")),
+    }
+    0
+}
+
+#[cfg(not(feature = "parallel"))]
+pub fn child_main(_path: &str, _threads: usize, _mode: u8) -> i32 {
+    2
 }
 
 #[cfg(not(feature = "parallel"))]
@@ -373,6 +398,41 @@ pub fn check(ctx: &Ctx, input: &Input) -> CaseResult {
     }
     if origin.contains("+32KiB-body") {
         out.label("input:function-body>32KiB");
+    }
+    // inputs with a very large function first go through a child process of
+    // the parallel build: if that build dies (stack overflow, abort) where the
+    // serial build answers, the builds disagree
+    if origin.contains("+32KiB-body") {
+        if let (Some(serial), Ok(exe)) = (ask_serial(&bytes, 0), std::env::current_exe()) {
+            if !serial.starts_with("panic") {
+                let tmp = std::env::temp_dir().join(format!("walrus-verif-c09-{}-{:x}.wasm", std::process::id(), out.hash));
+                if std::fs::write(&tmp, &bytes).is_ok() {
+                    for threads in [1usize, 4] {
+                        let o = std::process::Command::new(&exe).arg("c09-child").arg(&tmp).arg(threads.to_string()).arg("0").output();
+                        if let Ok(o) = o {
+                            use std::os::unix::process::ExitStatusExt;
+                            let line = String::from_utf8_lossy(&o.stdout).trim().to_string();
+                            if let Some(sig) = o.status.signal() {
+                                let _ = std::fs::remove_file(&tmp);
+                                return Err(Failure::new(
+                                    "parallel-build-crashed",
+                                    format!("serial build: {}; the parallel build ({} threads) died with signal {} [{} functions, {}]", serial, threads, sig, nf, origin),
+                                ));
+                            }
+                            if o.status.code() == Some(0) && line != serial {
+                                let _ = std::fs::remove_file(&tmp);
+                                return Err(Failure::new(
+                                    "output-bytes-differ",
+                                    format!("serial build: {}; parallel build in a child process with {} threads: {} [{} functions, {}]", serial, threads, line, nf, origin),
+                                ));
+                            }
+                        }
+                    }
+                    let _ = std::fs::remove_file(&tmp);
+                    out.label("big-body:child-process-compared");
+                }
+            }
+        }
     }
     let mut plain_serial = String::new();
     // both builds also run the GC pass between parse and emit (entities are
